@@ -646,7 +646,7 @@ def check_cross_paths_eval(chk) -> bool:
     """PDB->PDB, mmCIF->mmCIF, PDB->mmCIF->PDB and mmCIF->PDB->mmCIF on representative rows, every writer and reader interpreted (the
     mmcif library is a recording stub between write_cif and parse_cif_atoms).  Rules pdb-round-trip, cif-to-cif, field-map-pdb-to-cif,
     field-map-cif-to-pdb, value-domain, null-agreement."""
-    from checks.c08e import _Category, V2CifReader, V2Reader
+    from checks.c08e import CIF_DOC, _Category, V2CifReader, V2Reader
     from sa.frame import Frame, frame_from_rows, isna
 
     repo = chk.repo
@@ -675,7 +675,7 @@ def check_cross_paths_eval(chk) -> bool:
                 bad.setdefault("field-map-pdb-to-cif", []).append(f"write_cif writes rows of {sorted({len(r) for r in cat.rows})} values under {len(cat.attrs)} item names: the columns shift")
                 raise Raised("AssertionError", "ragged atom_site category")
             r_cif.category = _Category(cat.attrs, cat.rows)
-            res = r_cif.call("data_rnapolis\n#\n")
+            res = r_cif.call("".join(CIF_DOC))
             if not isinstance(res, Frame):
                 raise Unknown("parse_cif_atoms does not return a table")
             return res, cat
@@ -722,7 +722,7 @@ def check_cross_paths_eval(chk) -> bool:
             row.update({"label_asym_id": {"A": "C", "B": "D"}[a["chainID"]], "label_atom_id": a["name"].replace("'", "*"), "label_comp_id": a["resName"].lower()})
             extra.append(row)
         r_cif.category = _Category(list(extra[0]), [["?" if v is None else (f"{v:.3f}" if isinstance(v, float) else str(v)) for v in r.values()] for r in extra])
-        c0 = r_cif.call("data_src\n#\n")
+        c0 = r_cif.call("".join(CIF_DOC))
         c1, _ = to_cif(c0)
         for it in c0._cols:
             for k in range(len(c0.index)):
